@@ -11,6 +11,8 @@ CLAIMED = {
          'contract-based deductive verification (Verus): safety preconditions of all unsafe calls under the representation invariant', '7 C03'),
  'C04': ('proof', 'Linear ownership view cells(): Seq<Option<T>> of every column: write requires None, swap_remove/slice require Some, drop_to(len) requires all Some below len, drop_body frees every array, failed push_within_capacity returns its argument with *self unchanged, clone makes exactly one clone per live cell.',
          'contract-based deductive verification (Verus) over a linear ghost ownership view of the columns', '7 C04'),
+ 'C05': ('proof', 'The binding logic of all five query macros (macros/src/generate/query.rs: bind_query_params, bind_one_of; data.rs: contains_component; real bodies, syn types stubbed) is verified against the property statement: an archetype gets an entry iff EVERY parameter binds in it (component present / archetype name equal / wildcard and dynamic entity parameters always / cfg-disabled parameters always / OneOf: exactly one argument present), the entry is the parameter list with each OneOf replaced by the one present component, and an error is returned iff some OneOf is ambiguous for some archetype (or carries cfg attributes). Partial claim: that the emitted token stream dispatches as bound, "query matched no archetypes" and the compile-time rejection reaching the user are outside (rustc/syn).',
+         'contract-based deductive verification (Verus) of the query-parameter binding functions', '7 C05'),
  'C06': ('proof', 'Slice accessors have length len() and content rows 0..len of the right column with the matching handle (Verus, all N columns).',
          'contract-based deductive verification (Verus) of slice accessors', '7 C06'),
  'C07': ('proof', 'The ecs_iter_destroy! template of macros/src/generate/query.rs is instantiated (R-tmpl, text of the quote! block, holes filled for a two-archetype schema) and its reverse loop verified by Verus with a ghost invocation trace: the j-th closure invocation is for the entity that sat in row len-1-j when the loop started (each original entity exactly once), exactly the flagged ones are destroyed (len decreases by the number of destroy decisions, rows not yet visited are untouched: handle, values, position), Break/BreakDestroy return at once also across archetypes, and the handle / direct handle / component cell passed to the closure are the visited row\'s own (direct handle minted at the current archetype version). Generated archetype wrappers are a hand-written thin model checked textually against world.rs (A-gen-arch).',
@@ -36,7 +38,6 @@ CLAIMED = {
 }
 
 NOT_APPLICABLE = {
- 'C05': 'not yet under contract in this revision (binding functions of the macros crate); see DESIGN.md 7 C05',
  'C11': "RefCell's dynamic borrow flag x nested generated programs is not expressible as a contract on any gecs function (Verus models only the functional value of borrow/borrow_mut); DESIGN.md 7 C11",
  'C16': 'relates two compilations (rustc cfg evaluation of a generated macro chain): no function contract can state it; DESIGN.md 7 C16',
  'C18': 'compile-time acceptance/rejection, auto traits and token content of expansions are rustc judgments, not pre/postconditions; DESIGN.md 7 C18',
